@@ -464,13 +464,16 @@ class Authorization(Endpoint):
             **kwargs,
         )
 
-        _exp_in = usage_rules.get("expires_in")
+        _mngr = self.upstream_get("context").session_manager
+        if usage_rules:
+            _exp_in = usage_rules.get("expires_in")
+        else:  # like the token endpoint: without a usage rule the token handler's lifetime applies
+            _exp_in = _mngr.token_handler[token_class].lifetime
         if isinstance(_exp_in, str):
             _exp_in = int(_exp_in)
         if _exp_in:
             token.expires_at = utc_time_sans_frac() + _exp_in
 
-        _mngr = self.upstream_get("context").session_manager
         _mngr.set(_mngr.unpack_session_key(session_id), grant)
 
         return token
